@@ -629,6 +629,15 @@ func callsScenario(cfg callsCfg, first int) mc.Scenario {
 				switch handBack {
 				case 0:
 					w.held = append(w.held, &callHeld{kind: k.name, result: res, dest: dest, snap: got})
+					// the caller logs what it got (Error(), String(), %v of every issue): reading a result changes nothing
+					for _, is := range asList(res) {
+						_ = is.Error() + is.String() + fmt.Sprintf("%v|%+v", is, is)
+					}
+					for _, l := range asMap(res) {
+						for _, is := range l {
+							_ = is.Error() + is.String() + fmt.Sprintf("%v|%+v", is, is)
+						}
+					}
 				default:
 					hist[len(hist)-1] += []string{"", " -> Collect", " -> SanitizeAndCollect"}[handBack]
 					c07Collect(handBack, asList(res), asMap(res))
